@@ -33,6 +33,7 @@ EXPLANATION = (
     'Round 7: (PERM) every function of contract.py is scanned, the map(x.index, y) spelling included. '
     "Rounds 7-8: (PLANDEP) every plan-returning exit of the planners derives from the equation's output; (DIAG) the layout bookkeeping after a diagonal, executed on sample layouts, follows numpy's advanced-indexing rule; (DEDUP) a repeated index is classified once per operand; (PRIMS) no conjugating or flattening primitive in the executor. "
     "Round 8 (engine E9): (SINGLEPLAN, PAIRPLAN) the planners' source is evaluated by the engine's mini-evaluator on every equation of a finite family and the returned plan is applied to abstract operands (axes as tuples of fused index letters) under numpy's rules; nothing of cotengra is imported or run, the verdict is about all members of the family. This is the edge of the technique family (interpretation of pure bookkeeping source on concrete arguments) and is stated as such in DESIGN section 2. "
+    "Round 9 (E9): (TDOTPLAN) tensordot's equation for every axes form over ranks 0-3 is the reference's; (SINGLEPLAN) also evaluates the one-operand executor on abstract arrays. "
 )
 ASSUMPTIONS = ("matmul contracts the last axis of its first with the second-to-last axis of its "
                "second operand and broadcasts leading axes; transpose(x, p) puts source axis p[i] at i",)
